@@ -158,3 +158,10 @@ def describe_exc(e, limit=3):
     frames = [f"{fs.filename.split('/autograd/')[-1]}:{fs.lineno}:{fs.name}" for fs in traceback.extract_tb(e.__traceback__)
               if "/autograd/" in fs.filename]
     return f"{type(e).__name__}: {e} @ {' > '.join(frames[-limit:])}"[:400]
+
+
+def from_autograd(e):
+    """Did this exception pass through autograd code (as opposed to being raised by harness code alone)?"""
+    import traceback
+
+    return any("/autograd/" in fs.filename for fs in traceback.extract_tb(e.__traceback__))
